@@ -219,6 +219,70 @@ var durSlots = []durSlot{
 		}
 		return s.ResampleFor, true
 	}, true},
+	{"cq-resample-every-then-for", func(d string) string {
+		return "CREATE CONTINUOUS QUERY cq ON db RESAMPLE EVERY " + d + " FOR 9223372036854775807ns BEGIN SELECT v INTO t FROM m END"
+	}, func(st influxql.Statement) (time.Duration, bool) {
+		s := cqSrc(st)
+		if s == nil || s.ResampleFor != math.MaxInt64 {
+			return 0, false
+		}
+		return s.ResampleEvery, true
+	}, true},
+	{"cq-resample-for-after-every", func(d string) string {
+		return "CREATE CONTINUOUS QUERY cq ON db RESAMPLE EVERY 1ns FOR " + d + " BEGIN SELECT v INTO t FROM m END"
+	}, func(st influxql.Statement) (time.Duration, bool) {
+		s := cqSrc(st)
+		if s == nil || s.ResampleEvery != 1 {
+			return 0, false
+		}
+		return s.ResampleFor, true
+	}, true},
+	{"create-rp-all-four", func(d string) string {
+		return "CREATE RETENTION POLICY rp ON db DURATION " + d + " REPLICATION 1 SHARD DURATION " + d + " FUTURE LIMIT " + d + " PAST LIMIT " + d
+	}, func(st influxql.Statement) (time.Duration, bool) {
+		s, ok := st.(*influxql.CreateRetentionPolicyStatement)
+		if !ok || s.Duration != s.ShardGroupDuration || s.Duration != s.FutureWriteLimit || s.Duration != s.PastWriteLimit {
+			return 0, false
+		}
+		return s.Duration, true
+	}, false},
+	{"group-by-time-plus-offset", func(d string) string { return "SELECT mean(v) FROM m GROUP BY time(7w, +" + d + ")" },
+		func(st influxql.Statement) (time.Duration, bool) {
+			s, ok := st.(*influxql.SelectStatement)
+			if !ok || len(s.Dimensions) != 1 {
+				return 0, false
+			}
+			c, ok := s.Dimensions[0].Expr.(*influxql.Call)
+			if !ok || len(c.Args) != 2 {
+				return 0, false
+			}
+			l, ok := c.Args[1].(*influxql.DurationLiteral)
+			if !ok {
+				return 0, false
+			}
+			return l.Val, true
+		}, false},
+	{"where-now-plus-plus", func(d string) string { return "SELECT v FROM m WHERE time < now() + +" + d },
+		func(st influxql.Statement) (time.Duration, bool) {
+			s, ok := st.(*influxql.SelectStatement)
+			if !ok {
+				return 0, false
+			}
+			return firstDurLit(s.Condition)
+		}, false},
+	{"subquery-group-by-time", func(d string) string {
+		return "SELECT max(a) FROM (SELECT mean(v) AS a FROM m GROUP BY time(" + d + ")) GROUP BY time(1000w)"
+	}, func(st influxql.Statement) (time.Duration, bool) {
+		s, ok := st.(*influxql.SelectStatement)
+		if !ok || len(s.Sources) != 1 {
+			return 0, false
+		}
+		sq, ok := s.Sources[0].(*influxql.SubQuery)
+		if !ok || len(sq.Statement.Dimensions) != 1 {
+			return 0, false
+		}
+		return firstDurLit(sq.Statement.Dimensions[0].Expr)
+	}, false},
 	{"group-by-time", func(d string) string { return "SELECT mean(v) FROM m GROUP BY time(" + d + ")" },
 		func(st influxql.Statement) (time.Duration, bool) {
 			s, ok := st.(*influxql.SelectStatement)
@@ -343,6 +407,60 @@ func c08Slot(c *Ctx, slot durSlot, cs c08case, local map[string]int64) {
 		return
 	}
 	local["slot.exact"]++
+	// the statement printed and read back holds the same duration
+	var printed string
+	var st2 influxql.Statement
+	var err2 error
+	if p, pv, stk := mon.Try(func() { printed = st.String(); st2, err2 = influxql.ParseStatement(printed) }); p {
+		r.Violation("panic-printing-statement", map[string]interface{}{"sub": "slot", "slot": slot.name, "input": text, "why": fmt.Sprint(pv), "stack": stk})
+		return
+	}
+	if err2 != nil {
+		r.Violation("printed-duration-not-readable", map[string]interface{}{"sub": "slot", "slot": slot.name, "input": text, "why": fmt.Sprintf("printed as %q, which is rejected: %v", printed, err2)})
+		return
+	}
+	if got2, ok := slot.extract(st2); !ok || got2 != got {
+		r.Violation("printed-duration-changes-value", map[string]interface{}{"sub": "slot", "slot": slot.name, "input": text, "why": fmt.Sprintf("printed as %q, which reads back as %d (was %d)", printed, int64(got2), int64(got))})
+		return
+	}
+	local["slot.printed-and-read-back"]++
+}
+
+// c08Signed: a duration literal behind an explicit sign in an expression.
+func c08Signed(c *Ctx, cs c08case, local map[string]int64) {
+	r := c.R
+	if cs.neg {
+		return
+	}
+	want := exactSum(false, cs.comps)
+	if !fitsI64(want) {
+		return
+	}
+	dtext := compsText(false, cs.comps)
+	for _, sign := range []string{"+", "-", "+ ", "- "} {
+		text := sign + dtext
+		var e influxql.Expr
+		var err error
+		if p, pv, stk := mon.Try(func() { e, err = influxql.ParseExpr(text) }); p {
+			r.Violation("panic-in-parse", map[string]interface{}{"sub": "signed", "input": text, "why": fmt.Sprint(pv), "stack": stk})
+			return
+		}
+		r.Eval(1)
+		if err != nil {
+			r.Violation("in-range-literal-rejected", map[string]interface{}{"sub": "signed", "input": text, "why": fmt.Sprintf("signed duration literal with exact magnitude %s rejected: %v", want, err)})
+			return
+		}
+		l, ok := e.(*influxql.DurationLiteral)
+		w := want.Int64()
+		if sign[0] == '-' {
+			w = -w
+		}
+		if !ok || int64(l.Val) != w {
+			r.Violation("wrong-value", map[string]interface{}{"sub": "signed", "input": text, "why": fmt.Sprintf("ParseExpr gives %v, the text denotes the duration %d", e, w)})
+			return
+		}
+		local["signed.exact"]++
+	}
 }
 
 func c08Format(c *Ctx, d int64, local map[string]int64) {
@@ -442,7 +560,7 @@ func decompose(rg *mon.Rng, target *big.Int) []durComp {
 
 func checkC08(c *Ctx) (string, bool, []string) {
 	r := c.R
-	rule := "boundary grid: for every unit spelling and k, n in floor(k*2^63/mult)+{-2..2} (both signs) through ParseDuration and, for non-negative spellings, through 17 statement slots; multi-component decompositions of targets near k*2^63; random spellings; FormatDuration on boundary and random int64 with round trip. Non-trivial = exact sum differs from 0 and case text distinct."
+	rule := "boundary grid: for every unit spelling and k, n in floor(k*2^63/mult)+{-2..2} (both signs) through ParseDuration and, for non-negative spellings, through 23 statement slots (each accepted statement is also printed and read back: same duration), and behind an explicit + or - sign through ParseExpr; multi-component decompositions of targets near k*2^63; random spellings; FormatDuration on boundary and random int64 with round trip. Non-trivial = exact sum differs from 0 and case text distinct."
 	assume := []string{"math/big arithmetic is the reference for the exact sum", "well-formed spelling = optional '-' then (digits unit)+ with units ns,u,µ,ms,s,m,h,d,w"}
 
 	if c.Replay != nil {
@@ -468,6 +586,11 @@ func checkC08(c *Ctx) (string, bool, []string) {
 						}
 					}
 				}
+			}
+		case "signed":
+			in := strings.TrimSpace(strings.TrimLeft(replayStr(c, "input"), "+-"))
+			if cs, ok := parseCompsText(in); ok {
+				c08Signed(c, cs, local)
 			}
 		case "format":
 			v, _ := strconv.ParseInt(replayStr(c, "value"), 10, 64)
@@ -556,6 +679,9 @@ func checkC08(c *Ctx) (string, bool, []string) {
 	mon.Parallel(len(durSlots)*len(slotCases), c.Workers, func(i int) {
 		local := map[string]int64{}
 		c08Slot(c, durSlots[i/len(slotCases)], slotCases[i%len(slotCases)], local)
+		if i < len(slotCases) {
+			c08Signed(c, slotCases[i], local)
+		}
 		r.MergeCounts(local)
 	})
 
@@ -585,6 +711,9 @@ func checkC08(c *Ctx) (string, bool, []string) {
 		}
 		if !cs.neg && rg.P(0.25) {
 			c08Slot(c, durSlots[rg.Intn(len(durSlots))], cs, local)
+		}
+		if !cs.neg && rg.P(0.05) {
+			c08Signed(c, cs, local)
 		}
 		if i < 4 {
 			r.Sample(map[string]interface{}{"ParseDuration": compsText(cs.neg, cs.comps), "exact_sum_ns": exactSum(cs.neg, cs.comps).String()})
